@@ -244,6 +244,17 @@ def build():
         local_views={"formatted_value": lambda ex, env: Digits(z3.IntVal(0), z3.K(Int, z3.IntVal(0)))},
         loops={1: LoopSpec([fb_inv], havoc=[fb_havoc], hints=[fb_hints], kinds={"formatted_value": "skip"}, decreases="value")}))
 
+    def _native_ground(fn):
+        def run():
+            from pyvc.run import native_call
+            res = native_call({"custom": fn, "native_module": plan.native_module})
+            if "violated" not in res:
+                return False, f"native ground check {fn} did not run: {str(res)[:300]}", 0
+            return (not res["violated"]), res.get("detail", ""), res.get("count", 0)
+        return run
+    # _twos_complement goes through log2 / bin() / bit strings: no contract within reach; a sampled ground check around the width boundaries
+    plan.ground.append(("twos-complement-reads-back (sampled: [-70000,-1] and around powers of two)", _native_ground("ground_twos_complement")))
+
     plan.bounded.append(BoundedStandIn(
         "displayed-numbers", "c13_numbers.py", [], thorough_args=["--level", "2"],
         bound="6 format families (decimal, percentage, currency incl. accounting and every supported currency, scientific, base 2..36 with 0..8 "
